@@ -187,6 +187,784 @@ Theorem C06_encrypted_key_open_no_fault : forall pub_of pt_ok kdf cbcdec pass in
 Proof. exact sm2_p8_open_c_nofault. Qed.
 Print Assumptions C06_encrypted_key_open_no_fault.
 
+(* ---- wave 5: the X.509 extension / name / certificate decoders (Codec/X509.v) and the SM9 key containers
+   (Codec/Sm9Key.v).  [Fault] in these models is an access outside the buffer, a write past a capacity, or a
+   loop that does not end within its fuel (the length of its data): never-Fault includes termination. *)
+From GmVerif Require Import Codec.OidTables Codec.X509 Codec.X509Proofs Codec.Sm9Key Codec.Sm9KeyProofs.
+
+Theorem C06_x509_digest_algorithm_no_fault :
+  forall (fx : bool) (inp : list N), digest_algor_from_der fx inp <> Fault.
+Proof. exact digest_algor_from_der_nofault. Qed.
+Print Assumptions C06_x509_digest_algorithm_no_fault.
+
+Theorem C06_x509_signature_algorithm_no_fault :
+  forall inp : list N, sign_algor_from_der inp <> Fault.
+Proof. exact sign_algor_from_der_nofault. Qed.
+Print Assumptions C06_x509_signature_algorithm_no_fault.
+
+Theorem C06_x509_pke_algorithm_no_fault :
+  forall inp : list N, pke_algor_from_der inp <> Fault.
+Proof. exact pke_algor_from_der_nofault. Qed.
+Print Assumptions C06_x509_pke_algorithm_no_fault.
+
+Theorem C06_x509_extension_id_no_fault :
+  forall inp : list N, ext_id_from_der inp <> Fault.
+Proof. exact ext_id_from_der_nofault. Qed.
+Print Assumptions C06_x509_extension_id_no_fault.
+
+Theorem C06_x509_extension_no_fault :
+  forall inp : list N, ext_from_der inp <> Fault.
+Proof. exact ext_from_der_nofault. Qed.
+Print Assumptions C06_x509_extension_no_fault.
+
+Theorem C06_x509_extensions_lookup_no_fault :
+  forall (d : list N) (oid : Z), exts_get_ext_by_oid d oid <> Fault.
+Proof. exact exts_get_ext_by_oid_nofault. Qed.
+Print Assumptions C06_x509_extensions_lookup_no_fault.
+
+Theorem C06_x509_other_name_no_fault :
+  forall inp : list N, other_name_from_der inp <> Fault.
+Proof. exact other_name_from_der_nofault. Qed.
+Print Assumptions C06_x509_other_name_no_fault.
+
+Theorem C06_x509_general_name_no_fault :
+  forall inp : list N, general_name_from_der inp <> Fault.
+Proof. exact general_name_from_der_nofault. Qed.
+Print Assumptions C06_x509_general_name_no_fault.
+
+Theorem C06_x509_general_names_scan_no_fault :
+  forall (d : list N) (c : Z), general_names_scan d c <> Fault.
+Proof. exact general_names_scan_nofault. Qed.
+Print Assumptions C06_x509_general_names_scan_no_fault.
+
+Theorem C06_x509_general_names_get_first_no_fault :
+  forall (d : list N) (c : Z), general_names_get_first d c <> Fault.
+Proof. exact general_names_get_first_nofault. Qed.
+Print Assumptions C06_x509_general_names_get_first_no_fault.
+
+Theorem C06_x509_uri_as_general_names_no_fault :
+  forall (tag : N) (inp : list N), uri_as_general_names_from_der tag inp <> Fault.
+Proof. exact uri_as_general_names_from_der_nofault. Qed.
+Print Assumptions C06_x509_uri_as_general_names_no_fault.
+
+Theorem C06_x509_authority_key_identifier_no_fault :
+  forall inp : list N, aki_from_der inp <> Fault.
+Proof. exact aki_from_der_nofault. Qed.
+Print Assumptions C06_x509_authority_key_identifier_no_fault.
+
+Theorem C06_x509_basic_constraints_no_fault :
+  forall inp : list N, basic_constraints_from_der inp <> Fault.
+Proof. exact basic_constraints_from_der_nofault. Qed.
+Print Assumptions C06_x509_basic_constraints_no_fault.
+
+Theorem C06_x509_display_text_no_fault :
+  forall inp : list N, display_text_from_der inp <> Fault.
+Proof. exact display_text_from_der_nofault. Qed.
+Print Assumptions C06_x509_display_text_no_fault.
+
+Theorem C06_x509_notice_reference_no_fault :
+  forall (cap : N) (inp : list N), notice_reference_from_der cap inp <> Fault.
+Proof. exact notice_reference_from_der_nofault. Qed.
+Print Assumptions C06_x509_notice_reference_no_fault.
+
+Theorem C06_x509_user_notice_no_fault :
+  forall (cap : N) (inp : list N), user_notice_from_der cap inp <> Fault.
+Proof. exact user_notice_from_der_nofault. Qed.
+Print Assumptions C06_x509_user_notice_no_fault.
+
+Theorem C06_x509_policy_qualifier_info_no_fault :
+  forall inp : list N, policy_qualifier_info_from_der inp <> Fault.
+Proof. exact policy_qualifier_info_from_der_nofault. Qed.
+Print Assumptions C06_x509_policy_qualifier_info_no_fault.
+
+Theorem C06_x509_cert_policy_id_no_fault :
+  forall inp : list N, cert_policy_id_from_der inp <> Fault.
+Proof. exact cert_policy_id_from_der_nofault. Qed.
+Print Assumptions C06_x509_cert_policy_id_no_fault.
+
+Theorem C06_x509_policy_information_no_fault :
+  forall inp : list N, policy_information_from_der inp <> Fault.
+Proof. exact policy_information_from_der_nofault. Qed.
+Print Assumptions C06_x509_policy_information_no_fault.
+
+Theorem C06_x509_policy_mapping_no_fault :
+  forall inp : list N, policy_mapping_from_der inp <> Fault.
+Proof. exact policy_mapping_from_der_nofault. Qed.
+Print Assumptions C06_x509_policy_mapping_no_fault.
+
+Theorem C06_x509_attribute_no_fault :
+  forall inp : list N, attribute_from_der inp <> Fault.
+Proof. exact attribute_from_der_nofault. Qed.
+Print Assumptions C06_x509_attribute_no_fault.
+
+Theorem C06_x509_general_subtree_no_fault :
+  forall inp : list N, general_subtree_from_der inp <> Fault.
+Proof. exact general_subtree_from_der_nofault. Qed.
+Print Assumptions C06_x509_general_subtree_no_fault.
+
+Theorem C06_x509_name_constraints_no_fault :
+  forall inp : list N, name_constraints_from_der inp <> Fault.
+Proof. exact name_constraints_from_der_nofault. Qed.
+Print Assumptions C06_x509_name_constraints_no_fault.
+
+Theorem C06_x509_policy_constraints_no_fault :
+  forall inp : list N, policy_constraints_from_der inp <> Fault.
+Proof. exact policy_constraints_from_der_nofault. Qed.
+Print Assumptions C06_x509_policy_constraints_no_fault.
+
+Theorem C06_x509_key_purpose_no_fault :
+  forall inp : list N, key_purpose_from_der inp <> Fault.
+Proof. exact key_purpose_from_der_nofault. Qed.
+Print Assumptions C06_x509_key_purpose_no_fault.
+
+Theorem C06_x509_ext_key_usage_within_capacity :
+  forall (cap : N) (inp : list N),
+  match ext_key_usage_from_der cap inp with
+  | Ok (ids, _) => len ids <= cap
+  | Fault => False
+  | _ => True
+  end.
+Proof. exact ext_key_usage_from_der_safe. Qed.
+Print Assumptions C06_x509_ext_key_usage_within_capacity.
+
+Theorem C06_x509_distribution_point_name_no_fault :
+  forall inp : list N, distribution_point_name_from_der inp <> Fault.
+Proof. exact distribution_point_name_from_der_nofault. Qed.
+Print Assumptions C06_x509_distribution_point_name_no_fault.
+
+Theorem C06_x509_uri_as_distribution_point_name_no_fault :
+  forall (u0 : ptr) (inp : list N), uri_as_dpn_from_der u0 inp <> Fault.
+Proof. exact uri_as_dpn_from_der_nofault. Qed.
+Print Assumptions C06_x509_uri_as_distribution_point_name_no_fault.
+
+Theorem C06_x509_uri_as_explicit_distribution_point_name_no_fault :
+  forall (u0 : ptr) (i : N) (inp : list N), uri_as_explicit_dpn_from_der u0 i inp <> Fault.
+Proof. exact uri_as_explicit_dpn_from_der_nofault. Qed.
+Print Assumptions C06_x509_uri_as_explicit_distribution_point_name_no_fault.
+
+Theorem C06_x509_uri_as_distribution_point_no_fault :
+  forall (u0 : ptr) (inp : list N), uri_as_dp_from_der u0 inp <> Fault.
+Proof. exact uri_as_dp_from_der_nofault. Qed.
+Print Assumptions C06_x509_uri_as_distribution_point_no_fault.
+
+Theorem C06_x509_uri_as_distribution_points_no_fault :
+  forall (fx : bool) (inp : list N), uri_as_dps_from_der fx inp <> Fault.
+Proof. exact uri_as_dps_from_der_nofault. Qed.
+Print Assumptions C06_x509_uri_as_distribution_points_no_fault.
+
+Theorem C06_x509_access_method_no_fault :
+  forall inp : list N, access_method_from_der inp <> Fault.
+Proof. exact access_method_from_der_nofault. Qed.
+Print Assumptions C06_x509_access_method_no_fault.
+
+Theorem C06_x509_access_description_no_fault :
+  forall inp : list N, access_description_from_der inp <> Fault.
+Proof. exact access_description_from_der_nofault. Qed.
+Print Assumptions C06_x509_access_description_no_fault.
+
+Theorem C06_x509_authority_info_access_no_fault :
+  forall inp : list N, aia_from_der inp <> Fault.
+Proof. exact aia_from_der_nofault. Qed.
+Print Assumptions C06_x509_authority_info_access_no_fault.
+
+Theorem C06_x509_directory_name_no_fault :
+  forall inp : list N, directory_name_from_der inp <> Fault.
+Proof. exact directory_name_from_der_nofault. Qed.
+Print Assumptions C06_x509_directory_name_no_fault.
+
+Theorem C06_x509_explicit_directory_name_no_fault :
+  forall (i : N) (inp : list N), explicit_directory_name_from_der i inp <> Fault.
+Proof. exact explicit_directory_name_from_der_nofault. Qed.
+Print Assumptions C06_x509_explicit_directory_name_no_fault.
+
+Theorem C06_x509_edi_party_name_no_fault :
+  forall inp : list N, edi_party_name_from_der inp <> Fault.
+Proof. exact edi_party_name_from_der_nofault. Qed.
+Print Assumptions C06_x509_edi_party_name_no_fault.
+
+Theorem C06_x509_attr_type_and_value_no_fault :
+  forall inp : list N, attr_type_and_value_from_der inp <> Fault.
+Proof. exact attr_type_and_value_from_der_nofault. Qed.
+Print Assumptions C06_x509_attr_type_and_value_no_fault.
+
+Theorem C06_x509_rdn_check_no_fault :
+  forall d : list N, rdn_check d <> Fault.
+Proof. exact rdn_check_nofault. Qed.
+Print Assumptions C06_x509_rdn_check_no_fault.
+
+Theorem C06_x509_rdn_no_fault :
+  forall inp : list N, rdn_from_der inp <> Fault.
+Proof. exact rdn_from_der_nofault. Qed.
+Print Assumptions C06_x509_rdn_no_fault.
+
+Theorem C06_x509_name_check_no_fault :
+  forall d : list N, name_check d <> Fault.
+Proof. exact name_check_nofault. Qed.
+Print Assumptions C06_x509_name_check_no_fault.
+
+Theorem C06_x509_explicit_version_no_fault :
+  forall (i : N) (inp : list N), explicit_version_from_der i inp <> Fault.
+Proof. exact explicit_version_from_der_nofault. Qed.
+Print Assumptions C06_x509_explicit_version_no_fault.
+
+Theorem C06_x509_time_no_fault :
+  forall inp : list N, x509_time_from_der inp <> Fault.
+Proof. exact x509_time_from_der_nofault. Qed.
+Print Assumptions C06_x509_time_no_fault.
+
+Theorem C06_x509_validity_no_fault :
+  forall inp : list N, validity_from_der inp <> Fault.
+Proof. exact validity_from_der_nofault. Qed.
+Print Assumptions C06_x509_validity_no_fault.
+
+Theorem C06_x509_explicit_extensions_no_fault :
+  forall (i : N) (inp : list N), explicit_exts_from_der i inp <> Fault.
+Proof. exact explicit_exts_from_der_nofault. Qed.
+Print Assumptions C06_x509_explicit_extensions_no_fault.
+
+Theorem C06_x509_tbs_certificate_no_fault :
+  forall (pt_ok : list N -> bool) (inp : list N), tbs_cert_from_der pt_ok inp <> Fault.
+Proof. exact tbs_cert_from_der_nofault. Qed.
+Print Assumptions C06_x509_tbs_certificate_no_fault.
+
+Theorem C06_x509_signed_no_fault :
+  forall inp : list N, signed_from_der inp <> Fault.
+Proof. exact signed_from_der_nofault. Qed.
+Print Assumptions C06_x509_signed_no_fault.
+
+Theorem C06_x509_cert_get_details_no_fault :
+  forall (pt_ok : list N -> bool) (a : list N), cert_get_details pt_ok a <> Fault.
+Proof. exact cert_get_details_nofault. Qed.
+Print Assumptions C06_x509_cert_get_details_no_fault.
+
+Theorem C06_x509_certificate_no_fault :
+  forall (pt_ok : list N -> bool) (inp : list N), cert_from_der pt_ok inp <> Fault.
+Proof. exact cert_from_der_nofault. Qed.
+Print Assumptions C06_x509_certificate_no_fault.
+
+Theorem C06_loop_find_terminates_within_data :
+  forall (A : Type) (step : list N -> res (A * list N)) (hit : A -> bool),
+  (forall d : list N, step d <> Fault) ->
+  shrinks step ->
+  forall (fuel : nat) (d : list N), (length d <= fuel)%nat -> find_loop fuel step hit d <> Fault.
+Proof. exact @find_loop_nofault. Qed.
+Print Assumptions C06_loop_find_terminates_within_data.
+
+Theorem C06_loop_fold_terminates_within_data :
+  forall (A S : Type) (step : list N -> res (A * list N)) (cont : S -> bool) (upd : S -> A -> res S),
+  (forall d : list N, step d <> Fault) ->
+  shrinks step ->
+  (forall (s : S) (a : A), upd s a <> Fault) ->
+  forall (fuel : nat) (s : S) (d : list N),
+  (length d <= fuel)%nat -> fold_loop fuel step cont upd s d <> Fault.
+Proof. exact @fold_loop_nofault. Qed.
+Print Assumptions C06_loop_fold_terminates_within_data.
+
+Theorem C06_sm9_oid_no_fault :
+  forall inp : list N, sm9_oid_from_der inp <> Fault.
+Proof. exact sm9_oid_from_der_nofault. Qed.
+Print Assumptions C06_sm9_oid_no_fault.
+
+Theorem C06_sm9_algorithm_identifier_no_fault :
+  forall inp : list N, sm9_algor_from_der inp <> Fault.
+Proof. exact sm9_algor_from_der_nofault. Qed.
+Print Assumptions C06_sm9_algorithm_identifier_no_fault.
+
+Theorem C06_sm9_private_key_info_no_fault :
+  forall inp : list N, s9_pki_from_der inp <> Fault.
+Proof. exact s9_pki_from_der_nofault. Qed.
+Print Assumptions C06_sm9_private_key_info_no_fault.
+
+Theorem C06_sm9_sign_master_key_no_fault :
+  forall (g2_ok : list N -> bool) (inp : list N), sign_msk_from_der g2_ok inp <> Fault.
+Proof. exact sign_msk_from_der_nofault. Qed.
+Print Assumptions C06_sm9_sign_master_key_no_fault.
+
+Theorem C06_sm9_sign_master_public_key_no_fault :
+  forall (g2_ok : list N -> bool) (inp : list N), sign_mpk_from_der g2_ok inp <> Fault.
+Proof. exact sign_mpk_from_der_nofault. Qed.
+Print Assumptions C06_sm9_sign_master_public_key_no_fault.
+
+Theorem C06_sm9_sign_key_no_fault :
+  forall (g1_ok g2_ok : list N -> bool) (inp : list N), sign_key_from_der g1_ok g2_ok inp <> Fault.
+Proof. exact sign_key_from_der_nofault. Qed.
+Print Assumptions C06_sm9_sign_key_no_fault.
+
+Theorem C06_sm9_enc_master_key_no_fault :
+  forall (g1_ok : list N -> bool) (inp : list N), enc_msk_from_der g1_ok inp <> Fault.
+Proof. exact enc_msk_from_der_nofault. Qed.
+Print Assumptions C06_sm9_enc_master_key_no_fault.
+
+Theorem C06_sm9_enc_master_public_key_no_fault :
+  forall (g1_ok : list N -> bool) (inp : list N), enc_mpk_from_der g1_ok inp <> Fault.
+Proof. exact enc_mpk_from_der_nofault. Qed.
+Print Assumptions C06_sm9_enc_master_public_key_no_fault.
+
+Theorem C06_sm9_enc_key_no_fault :
+  forall (g1_ok g2_ok : list N -> bool) (inp : list N), enc_key_from_der g1_ok g2_ok inp <> Fault.
+Proof. exact enc_key_from_der_nofault. Qed.
+Print Assumptions C06_sm9_enc_key_no_fault.
+
+Theorem C06_sm9_signature_no_fault :
+  forall (g1_ok : list N -> bool) (inp : list N), sm9_sig_from_der g1_ok inp <> Fault.
+Proof. exact sm9_sig_from_der_nofault. Qed.
+Print Assumptions C06_sm9_signature_no_fault.
+
+Theorem C06_sm9_ciphertext_no_fault :
+  forall (g1_ok : list N -> bool) (inp : list N), sm9_ct_from_der g1_ok inp <> Fault.
+Proof. exact sm9_ct_from_der_nofault. Qed.
+Print Assumptions C06_sm9_ciphertext_no_fault.
+
+Theorem C06_sm9_encrypted_key_open_no_fault :
+  forall (g1_ok g2_ok : list N -> bool) (kdf : list N -> list N -> Z -> list N)
+  (cbcdec : list N -> list N -> list N -> option (list N)) (pass inp : list N),
+  sign_msk_open g2_ok kdf cbcdec pass inp <> Fault /\
+  sign_key_open g1_ok g2_ok kdf cbcdec pass inp <> Fault /\
+  enc_msk_open g1_ok kdf cbcdec pass inp <> Fault /\
+  enc_key_open g1_ok g2_ok kdf cbcdec pass inp <> Fault.
+Proof. exact sm9_open_nofault. Qed.
+Print Assumptions C06_sm9_encrypted_key_open_no_fault.
+
+
+(* ---- wave 5: CRL and certificate request decoders (Codec/Crl.v) *)
+From GmVerif Require Import Codec.Crl Codec.CrlProofs.
+
+Theorem C06_crl_reason_no_fault :
+  forall inp : list N, crl_reason_from_der inp <> Fault.
+Proof. exact crl_reason_from_der_nofault. Qed.
+Print Assumptions C06_crl_reason_no_fault.
+
+Theorem C06_crl_entry_extension_id_no_fault :
+  forall inp : list N, crl_entry_ext_id_from_der inp <> Fault.
+Proof. exact crl_entry_ext_id_from_der_nofault. Qed.
+Print Assumptions C06_crl_entry_extension_id_no_fault.
+
+Theorem C06_crl_entry_extension_no_fault :
+  forall inp : list N, crl_entry_ext_from_der inp <> Fault.
+Proof. exact crl_entry_ext_from_der_nofault. Qed.
+Print Assumptions C06_crl_entry_extension_no_fault.
+
+Theorem C06_crl_entry_extension_values_no_fault :
+  forall (rs dt : Z) (ci : ptr) (inp : list N), crl_entry_ext_from_der_ex rs dt ci inp <> Fault.
+Proof. exact crl_entry_ext_from_der_ex_nofault. Qed.
+Print Assumptions C06_crl_entry_extension_values_no_fault.
+
+Theorem C06_crl_entry_extensions_get_no_fault :
+  forall d : list N, crl_entry_exts_get d <> Fault.
+Proof. exact crl_entry_exts_get_nofault. Qed.
+Print Assumptions C06_crl_entry_extensions_get_no_fault.
+
+Theorem C06_crl_entry_extensions_no_fault :
+  forall inp : list N, crl_entry_exts_from_der inp <> Fault.
+Proof. exact crl_entry_exts_from_der_nofault. Qed.
+Print Assumptions C06_crl_entry_extensions_no_fault.
+
+Theorem C06_crl_entry_extensions_check_no_fault :
+  forall d : list N, crl_entry_exts_check d <> Fault.
+Proof. exact crl_entry_exts_check_nofault. Qed.
+Print Assumptions C06_crl_entry_extensions_check_no_fault.
+
+Theorem C06_crl_revoked_cert_no_fault :
+  forall inp : list N, revoked_cert_from_der inp <> Fault.
+Proof. exact revoked_cert_from_der_nofault. Qed.
+Print Assumptions C06_crl_revoked_cert_no_fault.
+
+Theorem C06_crl_revoked_cert_values_no_fault :
+  forall inp : list N, revoked_cert_from_der_ex inp <> Fault.
+Proof. exact revoked_cert_from_der_ex_nofault. Qed.
+Print Assumptions C06_crl_revoked_cert_values_no_fault.
+
+Theorem C06_crl_find_by_serial_in_list_no_fault :
+  forall d serial : list N, revoked_certs_find_by_serial d serial <> Fault.
+Proof. exact revoked_certs_find_by_serial_nofault. Qed.
+Print Assumptions C06_crl_find_by_serial_in_list_no_fault.
+
+Theorem C06_crl_extension_id_no_fault :
+  forall inp : list N, crl_ext_id_from_der_ex inp <> Fault.
+Proof. exact crl_ext_id_from_der_ex_nofault. Qed.
+Print Assumptions C06_crl_extension_id_no_fault.
+
+Theorem C06_crl_issuing_distribution_point_no_fault :
+  forall inp : list N, issuing_distribution_point_from_der inp <> Fault.
+Proof. exact issuing_distribution_point_from_der_nofault. Qed.
+Print Assumptions C06_crl_issuing_distribution_point_no_fault.
+
+Theorem C06_crl_extension_no_fault :
+  forall inp : list N, crl_ext_from_der_ex inp <> Fault.
+Proof. exact crl_ext_from_der_ex_nofault. Qed.
+Print Assumptions C06_crl_extension_no_fault.
+
+Theorem C06_crl_extensions_check_no_fault :
+  forall d : list N, crl_exts_check d <> Fault.
+Proof. exact crl_exts_check_nofault. Qed.
+Print Assumptions C06_crl_extensions_check_no_fault.
+
+Theorem C06_crl_tbs_no_fault :
+  forall inp : list N, tbs_crl_from_der inp <> Fault.
+Proof. exact tbs_crl_from_der_nofault. Qed.
+Print Assumptions C06_crl_tbs_no_fault.
+
+Theorem C06_crl_parse_no_fault :
+  forall inp : list N, crl_from_der_ex inp <> Fault.
+Proof. exact crl_from_der_ex_nofault. Qed.
+Print Assumptions C06_crl_parse_no_fault.
+
+Theorem C06_crl_get_details_no_fault :
+  forall a : list N, crl_get_details a <> Fault.
+Proof. exact crl_get_details_nofault. Qed.
+Print Assumptions C06_crl_get_details_no_fault.
+
+Theorem C06_crl_check_no_fault :
+  forall (a : list N) (now : Z), crl_check a now <> Fault.
+Proof. exact crl_check_nofault. Qed.
+Print Assumptions C06_crl_check_no_fault.
+
+Theorem C06_crl_get_issuer_no_fault :
+  forall a : list N, crl_get_issuer a <> Fault.
+Proof. exact crl_get_issuer_nofault. Qed.
+Print Assumptions C06_crl_get_issuer_no_fault.
+
+Theorem C06_crl_get_revoked_certs_no_fault :
+  forall a : list N, crl_get_revoked_certs a <> Fault.
+Proof. exact crl_get_revoked_certs_nofault. Qed.
+Print Assumptions C06_crl_get_revoked_certs_no_fault.
+
+Theorem C06_crl_find_revoked_cert_no_fault :
+  forall a serial : list N, crl_find_revoked_cert_by_serial_number a serial <> Fault.
+Proof. exact crl_find_revoked_cert_by_serial_number_nofault. Qed.
+Print Assumptions C06_crl_find_revoked_cert_no_fault.
+
+Theorem C06_crl_from_der_no_fault :
+  forall inp : list N, crl_from_der inp <> Fault.
+Proof. exact crl_from_der_nofault. Qed.
+Print Assumptions C06_crl_from_der_no_fault.
+
+Theorem C06_request_info_no_fault :
+  forall (pt_ok : list N -> bool) (inp : list N), request_info_from_der pt_ok inp <> Fault.
+Proof. exact request_info_from_der_nofault. Qed.
+Print Assumptions C06_request_info_no_fault.
+
+Theorem C06_request_get_details_no_fault :
+  forall (pt_ok : list N -> bool) (a : list N), req_get_details pt_ok a <> Fault.
+Proof. exact req_get_details_nofault. Qed.
+Print Assumptions C06_request_get_details_no_fault.
+
+Theorem C06_request_from_der_no_fault :
+  forall (pt_ok : list N -> bool) (inp : list N), req_from_der pt_ok inp <> Fault.
+Proof. exact req_from_der_nofault. Qed.
+Print Assumptions C06_request_from_der_no_fault.
+
+
+(* ---- wave 5: CMS decoders (Codec/Cms.v).  digest_algors[max] is an explicit capacity; the decrypting levels write the
+   caller's content buffer (capacity ccap, the rule proved is "a buffer as long as the input suffices") and key[32];
+   SM4-CBC, SM2 decryption, SM3 and SM2 verification are parameters of the keyed models. *)
+From GmVerif Require Import Codec.Cms Codec.CmsProofs.
+
+Theorem C06_cms_x509_encryption_algorithm_no_fault :
+  forall inp : list N, x509_enc_algor_from_der inp <> Fault.
+Proof. exact x509_enc_algor_from_der_nofault. Qed.
+Print Assumptions C06_cms_x509_encryption_algorithm_no_fault.
+
+Theorem C06_cms_content_type_no_fault :
+  forall inp : list N, cms_content_type_from_der inp <> Fault.
+Proof. exact cms_content_type_from_der_nofault. Qed.
+Print Assumptions C06_cms_content_type_no_fault.
+
+Theorem C06_cms_content_info_no_fault :
+  forall inp : list N, cms_content_info_from_der inp <> Fault.
+Proof. exact cms_content_info_from_der_nofault. Qed.
+Print Assumptions C06_cms_content_info_no_fault.
+
+Theorem C06_cms_data_no_fault :
+  forall inp : list N, cms_data_from_der inp <> Fault.
+Proof. exact cms_data_from_der_nofault. Qed.
+Print Assumptions C06_cms_data_no_fault.
+
+Theorem C06_cms_enced_content_info_no_fault :
+  forall inp : list N, cms_enced_content_info_from_der inp <> Fault.
+Proof. exact cms_enced_content_info_from_der_nofault. Qed.
+Print Assumptions C06_cms_enced_content_info_no_fault.
+
+Theorem C06_cms_encrypted_data_no_fault :
+  forall inp : list N, cms_encrypted_data_from_der inp <> Fault.
+Proof. exact cms_encrypted_data_from_der_nofault. Qed.
+Print Assumptions C06_cms_encrypted_data_no_fault.
+
+Theorem C06_cms_issuer_and_serial_number_no_fault :
+  forall inp : list N, cms_issuer_and_serial_number_from_der inp <> Fault.
+Proof. exact cms_issuer_and_serial_number_from_der_nofault. Qed.
+Print Assumptions C06_cms_issuer_and_serial_number_no_fault.
+
+Theorem C06_cms_signer_info_no_fault :
+  forall (fx : bool) (inp : list N), cms_signer_info_from_der fx inp <> Fault.
+Proof. exact cms_signer_info_from_der_nofault. Qed.
+Print Assumptions C06_cms_signer_info_no_fault.
+
+Theorem C06_cms_signer_infos_no_fault :
+  forall inp : list N, cms_signer_infos_from_der inp <> Fault.
+Proof. exact cms_signer_infos_from_der_nofault. Qed.
+Print Assumptions C06_cms_signer_infos_no_fault.
+
+Theorem C06_cms_recipient_infos_no_fault :
+  forall inp : list N, cms_recipient_infos_from_der inp <> Fault.
+Proof. exact cms_recipient_infos_from_der_nofault. Qed.
+Print Assumptions C06_cms_recipient_infos_no_fault.
+
+Theorem C06_cms_digest_algorithms_within_capacity :
+  forall (fx fxcap : bool) (cap maxn : N) (inp : list N),
+  da_bound fxcap maxn <= cap ->
+  match cms_digest_algors_from_der fx fxcap cap maxn inp with
+  | Ok (ids, _) => len ids <= da_bound fxcap maxn /\ ids <> []
+  | Fault => False
+  | _ => True
+  end.
+Proof. exact cms_digest_algors_from_der_safe. Qed.
+Print Assumptions C06_cms_digest_algorithms_within_capacity.
+
+Theorem C06_cms_digest_algorithms_no_fault :
+  forall (fx fxcap : bool) (cap maxn : N) (inp : list N),
+  da_bound fxcap maxn <= cap -> cms_digest_algors_from_der fx fxcap cap maxn inp <> Fault.
+Proof. exact cms_digest_algors_from_der_nofault. Qed.
+Print Assumptions C06_cms_digest_algorithms_no_fault.
+
+Theorem C06_cms_signed_data_within_capacity :
+  forall (fx fxcap : bool) (cap maxn : N) (inp : list N),
+  da_bound fxcap maxn <= cap ->
+  match cms_signed_data_from_der fx fxcap cap maxn inp with
+  | Ok (_, ids, _, _, _, _, _, _) => len ids <= da_bound fxcap maxn /\ ids <> []
+  | Fault => False
+  | _ => True
+  end.
+Proof. exact cms_signed_data_from_der_safe. Qed.
+Print Assumptions C06_cms_signed_data_within_capacity.
+
+Theorem C06_cms_signed_data_no_fault :
+  forall (fx fxcap : bool) (cap maxn : N) (inp : list N),
+  da_bound fxcap maxn <= cap -> cms_signed_data_from_der fx fxcap cap maxn inp <> Fault.
+Proof. exact cms_signed_data_from_der_nofault. Qed.
+Print Assumptions C06_cms_signed_data_no_fault.
+
+Theorem C06_cms_recipient_info_no_fault :
+  forall inp : list N, cms_recipient_info_from_der inp <> Fault.
+Proof. exact cms_recipient_info_from_der_nofault. Qed.
+Print Assumptions C06_cms_recipient_info_no_fault.
+
+Theorem C06_cms_enveloped_data_no_fault :
+  forall inp : list N, cms_enveloped_data_from_der inp <> Fault.
+Proof. exact cms_enveloped_data_from_der_nofault. Qed.
+Print Assumptions C06_cms_enveloped_data_no_fault.
+
+Theorem C06_cms_signed_and_enveloped_data_within_capacity :
+  forall (fx fxcap : bool) (cap maxn : N) (inp : list N),
+  da_bound fxcap maxn <= cap ->
+  match cms_signed_and_enveloped_data_from_der fx fxcap cap maxn inp with
+  | Ok (_, _, ids, _, _, _, _, _) => len ids <= da_bound fxcap maxn /\ ids <> []
+  | Fault => False
+  | _ => True
+  end.
+Proof. exact cms_signed_and_enveloped_data_from_der_safe. Qed.
+Print Assumptions C06_cms_signed_and_enveloped_data_within_capacity.
+
+Theorem C06_cms_signed_and_enveloped_data_no_fault :
+  forall (fx fxcap : bool) (cap maxn : N) (inp : list N),
+  da_bound fxcap maxn <= cap -> cms_signed_and_enveloped_data_from_der fx fxcap cap maxn inp <> Fault.
+Proof. exact cms_signed_and_enveloped_data_from_der_nofault. Qed.
+Print Assumptions C06_cms_signed_and_enveloped_data_no_fault.
+
+Theorem C06_cms_key_agreement_info_no_fault :
+  forall (pt_ok : list N -> bool) (inp : list N), cms_key_agreement_info_from_der pt_ok inp <> Fault.
+Proof. exact cms_key_agreement_info_from_der_nofault. Qed.
+Print Assumptions C06_cms_key_agreement_info_no_fault.
+
+Theorem C06_cms_enced_content_decrypt_within_caller_buffer :
+  (list N -> bool) ->
+  forall cbcdec : list N -> list N -> list N -> option (list N),
+  (list N -> option (list N)) ->
+  (list N -> list N) ->
+  (list N -> list N -> list N -> bool) ->
+  forall (ccap : N) (key inp : list N),
+  cbc_shortens cbcdec ->
+  len inp <= ccap ->
+  match cms_enced_content_info_decrypt_from_der cbcdec ccap key inp with
+  | Ok (_, _, pt, _, _, _) => len pt <= ccap
+  | Fault => False
+  | _ => True
+  end.
+Proof. exact cms_enced_content_info_decrypt_from_der_safe. Qed.
+Print Assumptions C06_cms_enced_content_decrypt_within_caller_buffer.
+
+Theorem C06_cms_encrypted_data_decrypt_within_caller_buffer :
+  (list N -> bool) ->
+  forall cbcdec : list N -> list N -> list N -> option (list N),
+  (list N -> option (list N)) ->
+  (list N -> list N) ->
+  (list N -> list N -> list N -> bool) ->
+  forall (ccap : N) (key inp : list N),
+  cbc_shortens cbcdec ->
+  len inp <= ccap ->
+  match cms_encrypted_data_decrypt_from_der cbcdec ccap key inp with
+  | Ok (_, _, pt, _, _, _) => len pt <= ccap
+  | Fault => False
+  | _ => True
+  end.
+Proof. exact cms_encrypted_data_decrypt_from_der_safe. Qed.
+Print Assumptions C06_cms_encrypted_data_decrypt_within_caller_buffer.
+
+Theorem C06_cms_recipient_info_decrypt_within_key_buffer :
+  forall (sm2dec : list N -> option (list N)) (ri rs : list N) (maxlen : N) (inp : list N),
+  match cms_recipient_info_decrypt_from_der sm2dec ri rs maxlen inp with
+  | Ok (Some k, _) => len k <= maxlen
+  | Fault => False
+  | _ => True
+  end.
+Proof. exact cms_recipient_info_decrypt_from_der_safe. Qed.
+Print Assumptions C06_cms_recipient_info_decrypt_within_key_buffer.
+
+Theorem C06_cms_recipient_infos_open_within_key_buffer :
+  forall (sm2dec : list N -> option (list N)) (ri rs ris : list N),
+  match cms_recipient_infos_open sm2dec ri rs ris with
+  | Ok key => len key <= 32
+  | Fault => False
+  | _ => True
+  end.
+Proof. exact cms_recipient_infos_open_safe. Qed.
+Print Assumptions C06_cms_recipient_infos_open_within_key_buffer.
+
+Theorem C06_cms_enveloped_data_decrypt_within_caller_buffer :
+  (list N -> bool) ->
+  forall (cbcdec : list N -> list N -> list N -> option (list N)) (sm2dec : list N -> option (list N)),
+  (list N -> list N) ->
+  (list N -> list N -> list N -> bool) ->
+  forall (ccap : N) (ri rs inp : list N),
+  cbc_shortens cbcdec ->
+  len inp <= ccap ->
+  match cms_enveloped_data_decrypt_from_der cbcdec sm2dec ccap ri rs inp with
+  | Ok (_, pt, _, _, _, _) => len pt <= ccap
+  | Fault => False
+  | _ => True
+  end.
+Proof. exact cms_enveloped_data_decrypt_from_der_safe. Qed.
+Print Assumptions C06_cms_enveloped_data_decrypt_within_caller_buffer.
+
+Theorem C06_cms_certs_lookup_no_fault :
+  forall pt_ok : list N -> bool,
+  (list N -> list N -> list N -> option (list N)) ->
+  (list N -> option (list N)) ->
+  (list N -> list N) ->
+  (list N -> list N -> list N -> bool) ->
+  forall d issuer serial : list N,
+  certs_get_cert_by_issuer_and_serial_number pt_ok d issuer serial <> Fault.
+Proof. exact certs_get_cert_by_issuer_and_serial_number_nofault. Qed.
+Print Assumptions C06_cms_certs_lookup_no_fault.
+
+Theorem C06_cms_signer_info_verify_no_fault :
+  forall pt_ok : list N -> bool,
+  (list N -> list N -> list N -> option (list N)) ->
+  (list N -> option (list N)) ->
+  forall (sm3 : list N -> list N) (sm2ver : list N -> list N -> list N -> bool) 
+  (fx : bool) (pre certs inp : list N),
+  cms_signer_info_verify_from_der pt_ok sm3 sm2ver fx pre certs inp <> Fault.
+Proof. exact cms_signer_info_verify_from_der_nofault. Qed.
+Print Assumptions C06_cms_signer_info_verify_no_fault.
+
+Theorem C06_cms_signer_infos_verify_no_fault :
+  forall pt_ok : list N -> bool,
+  (list N -> list N -> list N -> option (list N)) ->
+  (list N -> option (list N)) ->
+  forall (sm3 : list N -> list N) (sm2ver : list N -> list N -> list N -> bool) 
+  (fx : bool) (pre certs sis : list N),
+  cms_signer_infos_verify pt_ok sm3 sm2ver fx pre certs sis <> Fault.
+Proof. exact cms_signer_infos_verify_nofault. Qed.
+Print Assumptions C06_cms_signer_infos_verify_no_fault.
+
+Theorem C06_cms_content_info_header_within_128 :
+  (list N -> bool) ->
+  (list N -> list N -> list N -> option (list N)) ->
+  (list N -> option (list N)) ->
+  (list N -> list N) ->
+  (list N -> list N -> list N -> bool) ->
+  forall (ct : Z) (n : N) (hdr : list N), cms_content_info_header_to_der ct n = Ok hdr -> len hdr <= 24.
+Proof. exact cms_content_info_header_to_der_len. Qed.
+Print Assumptions C06_cms_content_info_header_within_128.
+
+Theorem C06_cms_signed_data_verify_no_fault :
+  forall pt_ok : list N -> bool,
+  (list N -> list N -> list N -> option (list N)) ->
+  (list N -> option (list N)) ->
+  forall (sm3 : list N -> list N) (sm2ver : list N -> list N -> list N -> bool) 
+  (fx : bool) (inp : list N), cms_signed_data_verify_from_der pt_ok sm3 sm2ver fx true inp <> Fault.
+Proof. exact cms_signed_data_verify_from_der_nofault. Qed.
+Print Assumptions C06_cms_signed_data_verify_no_fault.
+
+Theorem C06_cms_signed_and_enveloped_decipher_within_caller_buffer :
+  forall (pt_ok : list N -> bool) (cbcdec : list N -> list N -> list N -> option (list N))
+  (sm2dec : list N -> option (list N)) (sm3 : list N -> list N)
+  (sm2ver : list N -> list N -> list N -> bool) (fx : bool) (ccap : N) (ri rs inp : list N),
+  cbc_shortens cbcdec ->
+  len inp <= ccap ->
+  match
+  cms_signed_and_enveloped_data_decipher_from_der pt_ok cbcdec sm2dec sm3 sm2ver fx true ccap ri rs
+  inp
+  with
+  | Ok (_, pt, _, _, _, _, _, _, _) => len pt <= ccap
+  | Fault => False
+  | _ => True
+  end.
+Proof. exact cms_signed_and_enveloped_data_decipher_from_der_safe. Qed.
+Print Assumptions C06_cms_signed_and_enveloped_decipher_within_caller_buffer.
+
+Theorem C06_refuted_cms_digest_algorithms_overrun :
+  let sm3a := [48; 10; 6; 8; 42; 129; 28; 207; 85; 1; 131; 17] in
+  let inp := [49; 60] ++ sm3a ++ sm3a ++ sm3a ++ sm3a ++ sm3a in
+  cms_digest_algors_from_der true false 4 4 inp = Fault /\
+  cms_digest_algors_from_der true true 4 4 inp = Err /\
+  cms_digest_algors_from_der true false 5 4 inp = Ok ([13%Z; 13%Z; 13%Z; 13%Z; 13%Z], []).
+Proof. exact cms_digest_algors_asis_overrun. Qed.
+Print Assumptions C06_refuted_cms_digest_algorithms_overrun.
+
+
+(* ---- the intermediate PKCS#5 / PKCS#8 levels and identifier decoders, each on its own *)
+Theorem C06_named_curve_no_fault :
+  forall inp : list N, curve_from_der inp <> Fault.
+Proof. exact curve_from_der_nofault. Qed.
+Print Assumptions C06_named_curve_no_fault.
+
+Theorem C06_sm2_algorithm_identifier_no_fault :
+  forall inp : list N, sm2_algor_from_der inp <> Fault.
+Proof. exact sm2_algor_from_der_nofault. Qed.
+Print Assumptions C06_sm2_algorithm_identifier_no_fault.
+
+Theorem C06_pbkdf2_prf_no_fault :
+  forall inp : list N, prf_from_der inp <> Fault.
+Proof. exact prf_from_der_nofault. Qed.
+Print Assumptions C06_pbkdf2_prf_no_fault.
+
+Theorem C06_pbkdf2_algorithm_no_fault :
+  forall inp : list N, pbkdf2_algor_from_der inp <> Fault.
+Proof. exact pbkdf2_algor_from_der_nofault. Qed.
+Print Assumptions C06_pbkdf2_algorithm_no_fault.
+
+Theorem C06_pbes2_enc_algorithm_no_fault :
+  forall inp : list N, pbes2_enc_algor_from_der inp <> Fault.
+Proof. exact pbes2_enc_algor_from_der_nofault. Qed.
+Print Assumptions C06_pbes2_enc_algorithm_no_fault.
+
+Theorem C06_pbes2_params_no_fault :
+  forall inp : list N, pbes2_params_from_der inp <> Fault.
+Proof. exact pbes2_params_from_der_nofault. Qed.
+Print Assumptions C06_pbes2_params_no_fault.
+
+Theorem C06_pbes2_algorithm_no_fault :
+  forall inp : list N, pbes2_algor_from_der inp <> Fault.
+Proof. exact pbes2_algor_from_der_nofault. Qed.
+Print Assumptions C06_pbes2_algorithm_no_fault.
+
+Theorem C06_oid_table_lookup_no_fault :
+  forall (tab : oid_tab) (inp : list N), oid_info_from_der tab inp <> Fault.
+Proof. exact oid_info_from_der_nofault. Qed.
+Print Assumptions C06_oid_table_lookup_no_fault.
+
+
 (* ---- witnesses: the literal model of the pinned tree faults *)
 Theorem C06_refuted_oid_33_arcs :
   oid_from_octets AsIs 32 (42 :: repeat 1 31) = Fault /\ oid_from_octets Fixed 32 (42 :: repeat 1 31) = Err.
